@@ -17,21 +17,26 @@ type TMStored struct {
 	NextValsHash string // identity of the committed-to next validator set
 }
 
+// TMKey is (revision number, revision height).
+type TMKey struct{ Rev, Height uint64 }
+
+// Less orders heights: by revision, then by height.
+func (a TMKey) Less(b TMKey) bool { return a.Rev < b.Rev || (a.Rev == b.Rev && a.Height < b.Height) }
+
 // TMClient is the abstract client.
 type TMClient struct {
-	ChainID        string
-	Revision       uint64
+	ChainName      string // chain id without its revision suffix
 	TrustNum       int64
 	TrustDen       int64
 	TrustingPeriod time.Duration
 	MaxClockDrift  time.Duration
-	LatestHeight   uint64
-	Stored         map[uint64]TMStored // by revision height (same revision)
+	Latest         TMKey
+	Stored         map[TMKey]TMStored
 }
 
 // TMHeader is what the generator knows about a candidate header.
 type TMHeader struct {
-	ChainID         string
+	ChainName       string
 	Revision        uint64
 	Height          uint64
 	Time            time.Time
@@ -55,15 +60,15 @@ func gt(a, b, num, den int64) bool { // a/b > num/den  (b>0)
 // TMAccept is the reference acceptance rule; the string names the first failing clause.
 func TMAccept(c *TMClient, h *TMHeader, now time.Time) (bool, string) {
 	// client must be active: newest trusted state inside the trusting period
-	latest, ok := c.Stored[c.LatestHeight]
+	latest, ok := c.Stored[c.Latest]
 	if !ok {
 		return false, "no-latest-state"
 	}
 	if !latest.Time.Add(c.TrustingPeriod).After(now) {
 		return false, "client-expired"
 	}
-	ts, ok := c.Stored[h.TrustedHeight]
-	if !ok || h.TrustedRevision != c.Revision {
+	ts, ok := c.Stored[TMKey{h.TrustedRevision, h.TrustedHeight}]
+	if !ok {
 		return false, "no-trusted-state"
 	}
 	if h.TrustedValsHash != ts.NextValsHash {
@@ -72,7 +77,7 @@ func TMAccept(c *TMClient, h *TMHeader, now time.Time) (bool, string) {
 	if h.Revision != h.TrustedRevision {
 		return false, "revision"
 	}
-	if h.ChainID != c.ChainID {
+	if h.ChainName != c.ChainName {
 		return false, "chain-id"
 	}
 	if h.Height <= h.TrustedHeight {
